@@ -359,7 +359,7 @@ fn corr(seed: u64, n: usize, thorough: bool) {
     mark(o, &mut sizes);
 
     // ---------------------------------------------------------------- B: exhaustive batch openings
-    let mut honest: Vec<(Opening<Toy>, Vec<Vec<TD>>)> = Vec::new(); // n <= 8: every subset; 16: sample
+    let mut honest: Vec<(Opening<Toy>, Vec<Vec<TD>>, bool)> = Vec::new(); // n <= 8: every subset (flag: sorted list); 16: sample
     let mut honest_big: Vec<(Opening<Toy>, Vec<Vec<TD>>)> = Vec::new();
     for nl in [2usize, 4, 8, 16] {
         if nl == 16 && !thorough { continue; }
@@ -379,7 +379,7 @@ fn corr(seed: u64, n: usize, thorough: bool) {
             for (j, idx) in lists.iter().enumerate() {
                 let ops = if nl < 16 { 31 } else if j == 0 { 1 | 2 | 8 | 16 } else { 1 | 2 | 8 };
                 if let Some(h) = five(o, &t, &ls, idx, ops) {
-                    if nl <= 8 { if thorough || j == keep { honest.push(h); } } else if j == keep && r.chance(1, 200) { honest_big.push(h); }
+                    if nl <= 8 { if thorough || j == keep { honest.push((h.0, h.1, j == 0)); } } else if j == keep && r.chance(1, 200) { honest_big.push(h); }
                 }
             }
         }
@@ -387,7 +387,7 @@ fn corr(seed: u64, n: usize, thorough: bool) {
     mark(o, &mut sizes);
 
     // ---------------------------------------------------------------- C: random batch openings on larger trees
-    let n_c = n.min(3000);
+    let n_c = n.min(2000);
     for (ti, nl) in [16usize, 32, 64, 128, 256].into_iter().enumerate() {
         let leaves = rand_leaves(r, nl);
         let t = MerkleTree::<Toy>::new(leaves.clone()).unwrap();
@@ -419,14 +419,14 @@ fn corr(seed: u64, n: usize, thorough: bool) {
     // ---------------------------------------------------------------- D: mutations
     for (root, nl, i, p) in &singles { mutate_single(o, r, *root, *nl, *i, p); }
     let mut rot = 0usize;
-    for (q, paths) in &honest {
-        mutate_batch(o, r, q, None, thorough || q.n <= 4, &mut rot);
+    for (q, paths, sorted) in &honest {
+        mutate_batch(o, r, q, None, (thorough && *sorted) || q.n <= 4, &mut rot);
         if q.n <= 4 || r.chance(1, 8) { mutate_from_paths(o, r, paths, &q.idx); }
     }
-    let cap_big = if thorough { 300 } else { 40 };
+    let cap_big = if thorough { 200 } else { 40 };
     if honest_big.len() > cap_big { shuffle(r, &mut honest_big); honest_big.truncate(cap_big); }
     for (q, paths) in &honest_big {
-        mutate_batch(o, r, q, Some(if thorough { 60 } else { 36 }), thorough, &mut rot);
+        mutate_batch(o, r, q, Some(if thorough { 40 } else { 36 }), thorough, &mut rot);
         if q.idx.len() <= 40 { mutate_from_paths(o, r, paths, &q.idx); }
     }
     // shapes of from_paths that do not derive from an honest opening
@@ -579,7 +579,14 @@ fn falsify_hasher<H: Hasher>(name: &str, real: bool, budget: usize, r: &mut Rng,
             if !matches!(&ip, Ok(Ok(ps)) if *ps == singles) { fz.fail("into_paths-honest", name, inp, "the individual paths", short(&ip)); }
             match catch(AUS(|| BatchMerkleProof::<H>::from_paths(&singles, &idx))) {
                 Ok(q) if q.leaves == p.leaves && q.nodes == p.nodes && q.depth == p.depth => {}
-                Ok(q) => fz.fail("from_paths-honest", name, inp, "the batch proof", Opening::<H>::of(root, n, &idx, &q).describe()),
+                Ok(q) => {
+                    // from_paths orders the leaves by ascending position, prove_batch by the order of the index list
+                    let mut sorted = idx.clone(); sorted.sort();
+                    let by_pos: Vec<H::Digest> = sorted.iter().map(|&i| leaves[i]).collect();
+                    let what = if q.leaves == by_pos && q.nodes == p.nodes && q.depth == p.depth { "from_paths-leaf-order" } else { "from_paths-honest" };
+                    let qo = Opening::<H>::of(root, n, &idx, &q);
+                    fz.fail(what, name, inp, "the batch proof (same leaves order, nodes, depth), verifying for idx", format!("{} ; verify_batch(root, idx, it) = {}", qo.describe(), short(&qo.verify_batch())));
+                }
                 Err(m) => fz.fail("from_paths-honest", name, inp, "the batch proof", format!("panic: {}", m)),
             }
             // 4. mutated openings must be rejected (acceptance only judged for collision-resistant hashers)
